@@ -15,3 +15,8 @@ func VerifAppendUint(bits uint8, w uint64) []byte { return encoder.VerifAppendUi
 func VerifDecodeInt(bits int, signed bool, buf []byte) string {
 	return decoder.VerifDecodeInt(bits, signed, buf)
 }
+
+func VerifAppendString(html, norm bool, s string) []byte {
+	return encoder.VerifAppendString(html, norm, s)
+}
+func VerifDecodeString(buf []byte) string { return decoder.VerifDecodeString(buf) }
